@@ -24,7 +24,8 @@ def rot(D, ang):
 
 
 def job(a):
-    D, cond, ang, mi, xi, seed = a
+    D, cond, ang, mi, xi, seed = a[:6]
+    box = a[6] if len(a) > 6 else 5.0   # half-width of the plausible box (hard box = 4x)
     from pybads import BADS
 
     R = rot(D, ang)
@@ -32,7 +33,13 @@ def job(a):
     A = R @ np.diag(ev) @ R.T
     mpat = [(-4, 0, 3), (0, 0, 0), (3, -3, 1.5)][mi]
     m = np.array([mpat[i % 3] for i in range(D)], float)
-    x0 = np.full((1, D), [-2.5, 0.0, 4.5][xi])
+    if xi == 3:      # warm start exactly at the minimiser
+        x0 = m.reshape(1, D).copy()
+    elif xi == 4:    # start close to the minimiser: f(x0) - f* = 0.05
+        d = np.ones(D) / np.sqrt(D)
+        x0 = (m + d * np.sqrt(0.1 / float(d @ A @ d))).reshape(1, D)
+    else:
+        x0 = np.full((1, D), [-2.5, 0.0, 4.5][xi])
     st = dict(best=np.inf, hit=None, n=0, first=None)
 
     def f(x):
@@ -47,8 +54,8 @@ def job(a):
         return v
 
     try:
-        b = BADS(f, x0=x0, lower_bounds=np.full(D, -20.0), upper_bounds=np.full(D, 20.0), plausible_lower_bounds=np.full(D, -5.0),
-                 plausible_upper_bounds=np.full(D, 5.0), options={"display": "off", "random_seed": seed})
+        b = BADS(f, x0=x0, lower_bounds=np.full(D, -4.0 * box), upper_bounds=np.full(D, 4.0 * box), plausible_lower_bounds=np.full(D, -box),
+                 plausible_upper_bounds=np.full(D, box), options={"display": "off", "random_seed": seed})
         r = b.optimize()
     except Exception as e:  # noqa
         return dict(a=list(a), error=repr(e)[:120])
@@ -58,7 +65,11 @@ def job(a):
 
 def panel(quick, seed):
     Ds = (1, 2, 3) if quick else (1, 2, 3, 4, 5)
-    return [(D, c, ang, mi, xi, seed) for D in Ds for c in (1, 10, 100) for ang in (0.0, 0.7) for mi in (0, 2) for xi in (0, 2)]
+    base = [(D, c, ang, mi, xi, seed, 5.0) for D in Ds for c in (1, 10, 100) for ang in (0.0, 0.7) for mi in (0, 2) for xi in (0, 2)]
+    # warm starts at the minimiser, and near-minimum starts in a wide plausible box (coarse first meshes cannot improve)
+    warm = [(D, c, 0.7, mi, 3, seed, 5.0) for D in Ds for c in (1, 100) for mi in (0, 2)]
+    wide = [(D, c, ang, mi, 4, seed, 50.0) for D in (3, 4, 5) for c in (1, 10, 100) for ang in (0.0, 0.7) for mi in (0, 2)]
+    return base + warm + wide
 
 
 def replay(case, key):
@@ -100,7 +111,7 @@ def run(ctx):
         rep.violation("population guarantee fails on the enumerated lattice panel", k, d, dict(kind="panel", panel=[list(a) for a in jobs]))
     ok = [r for r in res if "error" not in r]
     rep.set("evaluations", len(res))
-    rep.set("distinct_nontrivial", len({(r["a"][0], r["a"][1], r["a"][2], r["a"][3], r["a"][4]) for r in ok if r["n"] > 10 * r["a"][0]}))
+    rep.set("distinct_nontrivial", len({tuple(r["a"][:5]) + tuple(r["a"][6:]) for r in ok if r["n"] > 10 * r["a"][0]}))
     rep.set("rule", "complete lattice D x eigenvalue profile {1, 1..10, 1..100} x rotation {identity, Givens 0.7*i rad} x minimiser pattern x start, default options, "
                     "one seed from VERIF_SEED; non-trivial = the run used more than 10*D evaluations; distinct = distinct lattice points")
     rep.set("panel_size", len(res))
